@@ -225,15 +225,28 @@ def run_exec(cmd, cases, per_case_timeout=10.0, label=''):
     while todo:
         guard += 1
         inp = ''.join(json.dumps({'id': c['id'], 'case': c['case']}) + '\n' for c in todo)
-        budget = max(60.0, per_case_timeout * 4 + 0.02 * len(todo))
+        # an executor is given up only when it makes NO progress: no new answer line for `stall` seconds (a slow but advancing executor on a big input is
+        # never cut: a total-time budget once cut the Lean driver in the middle of a thorough run and the case it was at was reported as a disagreement)
+        stall = max(60.0, per_case_timeout * 6)
         # stdout goes to a file and stderr nowhere: an executor spinning in a loop that prints must not fill this process's memory
         import tempfile
-        with tempfile.TemporaryFile(dir=WORK) as so:
-            try:
-                p = subprocess.run(cmd, input=inp.encode(), stdout=so, stderr=subprocess.DEVNULL, timeout=budget)
-                rc, timed_out = p.returncode, False
-            except subprocess.TimeoutExpired:
-                rc, timed_out = 124, True
+        with tempfile.TemporaryFile(dir=WORK) as so, tempfile.TemporaryFile(dir=WORK) as si:
+            si.write(inp.encode()); si.seek(0)
+            p = subprocess.Popen(cmd, stdin=si, stdout=so, stderr=subprocess.DEVNULL)
+            last_size, last_change, timed_out = -1, time.time(), False
+            while True:
+                try:
+                    p.wait(timeout=0.5)
+                    break
+                except subprocess.TimeoutExpired:
+                    pass
+                size = os.fstat(so.fileno()).st_size
+                if size != last_size: last_size, last_change = size, time.time()
+                elif time.time() - last_change > stall or size > (1 << 31):          # no progress, or an executor that floods its output
+                    timed_out = True
+                    p.kill(); p.wait()
+                    break
+            rc = 124 if timed_out else p.returncode
             so.seek(0)
             lines = so.read(1 << 30).decode('utf-8', 'replace').splitlines()      # an executor may print a non-UTF-8 string it was handed
         hangs += timed_out
